@@ -21,6 +21,7 @@ marshalling of the `api` cases (property C11's codec) and the assembly interpret
 import DosModel.Model.Util
 import DosModel.Model.AsmBn256
 import DosModel.Model.Bn256CPairing
+import DosModel.Model.Bn256CheckSlices
 import DosModel.Gen.Bn256Asm
 import DosModel.Gen.Bn256Code
 
@@ -502,6 +503,13 @@ def step (line : String) : String :=
       pure (chk fp12Hex (Bn256Code.pointGT_pair cs uParam p q) (optimalAte q p))
   | ["api", prog] => apiCase prog
   | ["check", ps] => orBad do pure (checkStr (← pairsOf ps))
+  | ["checkl", as, bs] => orBad do
+      let a ← if as == "-" then some [] else (as.splitOn "|").mapM g1Of
+      let b ← if bs == "-" then some [] else (bs.splitOn "|").mapM g2Of
+      pure (chk (fun (o : Option Bool) => match o with
+          | some v => toString v
+          | none => "panic")
+        (Bn256Code.pointGT_pairingCheck cs uParam a b) (pairingCheckSlices a b).toOption)
   | "k1" :: op :: args => k1Case op args
   | "k2" :: op :: args => k2Case op args
   | "kt" :: op :: args => ktCase op args
